@@ -55,6 +55,21 @@ CLAIMED = {
         note="Bounded: <=3 distinct words (pool of 8, <=4 symbols) exhaustively; random <=6 words of <=7 letters over <=3 letters, <=24 merges. Corpora restricted to ASCII letters and single spaces (clean/NFKC identity). Thread schedules of the real counting stage are not controlled (result must be valid for each thread count).",
         technique="TLA+ greedy training machine model-checked with TLC; corpora replayed through the real trainer; written tables validated as spec behaviours by a TLC trace spec",
         ref="6 C19"),
+    "C10": dict(
+        text="spec/Ws.tla transcribes the two-pointer alignment of operations() and the fold of repair(); MC_Ws checks over all texts up to length 4/5 (space, tab, letter, 2-code-point letter) and every clean respacing that Ops/Repair are inverse in both directions, that Repair preserves the non-whitespace content for every op sequence and that all-Keep is the identity. Binding: TLC enumerates all clean pairs (every spacing of each side, multi-byte and cluster letters, both modes) and all short strings x all op sequences; random cases; the real operations/repair are called and Trace_Ws validates each record (succeeds, one op per character, repair result = target; only-whitespace clause; length mismatch is Err; mechanism: ops equal the two-pointer machine).",
+        note="Bounded: MC length 4/5; replay <=3/4 non-whitespace characters and strings <=3/4 x all op sequences; random up to 16/14 characters. Grapheme-mode texts with mixed clusters are outside the property (skipped, counted). View trusted (unicode-segmentation, char::is_whitespace).",
+        technique="TLA+ spec of the alignment machine and repair fold model-checked with TLC; TLC-enumerated cases replayed; recorded calls validated by a TLC trace spec",
+        ref="6 C10"),
+    "C11": dict(
+        text="spec/Ws.tla gives clean() as a scanning machine plus Words / WordBounds / Join / RemoveWs / FullWs; MC_Ws checks that Clean is the whitespace normal form (clean, content preserving, idempotent, equal to the words joined by single spaces) for all texts up to length 4/5. Binding: all strings up to length 4/5 over 9 class-complete slots (space, tab, NBSP, ideographic space, letters, ZWSP, e+acute, CRLF) in both modes and random strings over 13 White_Space characters are run through the real clean/word_boundaries/remove/full and compared code point by code point with the spec by Trace_Ws.",
+        note="Bounded as stated. Outputs are compared at code-point level (the view of the input gives each cluster's code points). Mixed clusters in grapheme mode are outside the property (skipped, counted).",
+        technique="TLA+ spec of clean/word boundaries model-checked with TLC; TLC-enumerated strings replayed; recorded outputs validated by a TLC trace spec",
+        ref="6 C11"),
+    "C14": dict(
+        text="spec/Ws.tla models whitespace corruption as one coin per character with probability classes {0, between, 1}; MC_Ws checks that every corruption reachable by some coin vector from a clean text is clean, content preserving and repaired exactly by Ops/Repair. Binding: all clean texts up to 5/7 characters x 8 probability pairs x 3 seeds x both modes and random clean texts go through the real preprocessing(WhitespaceCorruption) and the real whitespace-correction task; Trace_Ws checks target untouched, same non-whitespace characters, output clean, operations/repair recover the text, one label per input character equal to the operations, determinism in (text, seed), probability-0 clauses, and (mechanism) reachability by some coin vector.",
+        note="Bounded as stated; probabilities abstracted to three classes for the reachability (DRIFT) check; the task is run with a byte tokenizer with one prefix and one suffix token.",
+        technique="TLA+ spec of coin-wise corruption model-checked with TLC; TLC-enumerated texts/probabilities/seeds replayed through the real preprocessing and task; records validated by a TLC trace spec",
+        ref="6 C14"),
     "C12": dict(
         text="TLC explores the alignment machine of spec/EditDist.tla for all text pairs up to length 3 over a whitespace and two other symbols and all flag combinations and checks in every state that the row-DP of the mechanism layer is the least alignment cost (Bellman conditions), termination and the range/prefix consequences; the spec is bound to the code by replaying the TLC-enumerated input space (all pairs up to length 3/4 x flags x 4 concretisations incl. multi-byte and grapheme clusters) and seeded random pairs up to 14 characters through distance/distances/prefix_distance/operations and validating every recorded call with Trace_EditDist (exact distance, exact rational for the normalised value, script is an Align behaviour of cost D).",
         note="Bounded: MC up to length 3, replay up to length 4, random up to 14. Trusted: unicode-segmentation and char::is_whitespace for the view; float vs rational tolerance 1e-6; TLC.",
